@@ -662,6 +662,25 @@ func (fs fontSpec) dict() (core.Dict, store) {
 		}
 		d["Encoding"] = e
 	}
+	// /FontDescriptor carries metrics only; whether it is absent, a dictionary, a
+	// reference to an object the file does not have (legal: the same as null),
+	// or null, the codes decode the same way.
+	if fs.kind != "Type0" {
+		h := 0
+		for _, ch := range fs.String() {
+			h = h*31 + int(ch)
+		}
+		switch (h%4 + 4) % 4 {
+		case 1:
+			st[29] = core.Dict{"Type": core.Name("FontDescriptor"), "FontName": d["BaseFont"], "Flags": core.Int(32), "ItalicAngle": core.Int(0), "Ascent": core.Int(800), "Descent": core.Int(-200), "CapHeight": core.Int(700), "StemV": core.Int(80), "FontBBox": core.Array{core.Int(0), core.Int(-200), core.Int(1000), core.Int(800)}}
+			d["FontDescriptor"] = core.IndirectRef{Number: 29}
+		case 2:
+			d["FontDescriptor"] = core.IndirectRef{Number: 29} // object 29 does not exist
+		case 3:
+			st[29] = core.Null{}
+			d["FontDescriptor"] = core.IndirectRef{Number: 29}
+		}
+	}
 	if fs.toUnicode != nil {
 		if fs.tuIndirect {
 			st[22] = fs.toUnicode
